@@ -15,6 +15,8 @@ Conds : ["cmp",op,t,t] ["in",item,container] ["contains",container,item] ["truth
 """
 from __future__ import annotations
 
+import json
+
 import itertools
 import operator
 from collections import Counter
@@ -270,7 +272,19 @@ def build(spec, m, objs=None, domain_factory=None):
         T = int if v["type"] == "int" else object if v["type"] == "obj" else getattr(m, v["type"])
         return E.let(T, mk_domain(v), name=v["name"])
 
+    shared = {} if spec.get("share_terms") else None
+
     def bt(t):
+        # share_terms: the same attribute / index / call expression OBJECT is used wherever the same term is written
+        # (flag = x.flag; ... flag == False, flag ...) instead of a fresh expression per occurrence
+        if shared is not None and t[0] in ("attr", "idx", "call"):
+            key = json.dumps(t, sort_keys=True, default=repr)
+            if key not in shared:
+                shared[key] = bt_(t)
+            return shared[key]
+        return bt_(t)
+
+    def bt_(t):
         k = t[0]
         if k == "var":
             return V[t[1]]
@@ -411,10 +425,11 @@ def oracle(spec, m, objs=None, mode="total", unknown_vars=()):
                     out.append(o)
             return out
         v = base[name]
+        # the identical object twice in a domain is one candidate value
         if v["type"] in ("int", "obj"):
-            return list(v["vals"])
+            return list({id(x): x for x in v["vals"]}.values())
         T = getattr(m, v["type"])
-        return [objs[i] for i in v["dom"] if isinstance(objs[i], T)]
+        return [objs[i] for i in dict.fromkeys(v["dom"]) if isinstance(objs[i], T)]
 
     def et(t, A):
         k = t[0]
